@@ -78,6 +78,9 @@ PoliciesWs == { Pol("min","lf","lit","plain"), Pol("one","cr","hex","esc"), Pol(
                 Pol("cmt","lf","lit","esc"), Pol("cmt","cr","hexws","plain"), Pol("cmt","crlf","oct","plain") }
 
 CONSTANT Policies
+\* one leaf, then (in a program) its operator: the generator for large leaf sets
+GenNextR == IF toks = <<>> THEN GenNext ELSE \E t \in OpNames : AddOp(t)
+GenSpecR == GenInit /\ [][GenNextR]_gvars
 
 Case(P) == [mode |-> mode, toks |-> toks, pol |-> P, bytes |-> Spell(toks, P)]
 Emit == Ready => \A P \in Policies : PrintT(ToJson(Case(P)))
